@@ -23,7 +23,7 @@ import (
 
 func TestMain(m *testing.M) {
 	stats.Init("C03")
-	stats.Rule("rapid state machine over a REQ socket with 1-3 contexts on 1-3 vt pipes; actions send/reply(kind)/recv/recvAsync/openCtx/closeCtx/dropPipe/addPipe; reply kinds: current, stale, other context, cancelled, duplicate, no request bit, random id, short body. Non-trivial: history delivers >=1 non-current reply while a request is outstanding, or uses >=2 contexts with requests, or overlaps an async Recv with a Send; distinct by the sequence of (action, kind, outcome)")
+	stats.Rule("rapid state machine over a REQ socket with 1-3 contexts on 1-3 vt pipes; actions send/reply(kind)/recv/recvAsync/openCtx/closeCtx/dropPipe/addPipe; reply kinds: current, stale, other context, cancelled, duplicate, no request bit, random id, short body. Also: 10 ms retry time with starve/release (all peers back-pressure) and forged replies carrying the next consecutive ids while a Send waits untransmitted. Non-trivial: history delivers >=1 non-current reply while a request is outstanding, or uses >=2 contexts with requests, or overlaps an async Recv with a Send; distinct by the sequence of (action, kind, outcome)")
 	stats.Assume("replies are injected with the vt barrier (receiver back in Recv), so 'arrived' is exact; Recv that the model predicts to block is issued with a 40 ms deadline")
 	rc := m.Run()
 	stats.Flush()
